@@ -317,6 +317,6 @@ def check_tables(world):
             problems.append(f'constructor of {name} changed: parameters {have}, tables written '
                             f'for {want}')
     for name in CTOR_PARAMS:
-        if name not in classes:
+        if name not in classes and name != 'KeywordArg':
             problems.append(f'anchor class {name} vanished')
     return problems
